@@ -69,7 +69,10 @@ func HarnessC09Options() {
 		fop, ffield = ops[(fc-2)/len(fields)], fields[(fc-2)%len(fields)]
 		lo.FilterOptions = &filter.StorageOptions{Operation: fop, Field: ffield}
 	}
-	n, k := verif.Choice("n", 4), verif.Choice("k", 4)
+	n, k := 0, 0
+	if verif.Param("PAGING", 1) == 1 {
+		n, k = verif.Choice("n", 4), verif.Choice("k", 4)
+	}
 
 	g.AddTriples(ctx, triples(b1))
 	base, err0, _ := lookup(g, m, q, storage.DefaultLookup, b1)
@@ -186,4 +189,48 @@ func HarnessC09PageOverflow() {
 	verif.Reach("looked-up")
 	verif.Assert(err2 == nil, "C09/overflow/lookup-succeeds")
 	verif.Assert(len(res) == 0, "C09/overflow/far-page-is-empty")
+}
+
+// C09 (latest): two or three stored temporal triples compete: latest keeps,
+// per predicate identifier, exactly those with the greatest anchor.
+func HarnessC09Latest() {
+	g, err := memory.NewStore().NewGraph(ctx, "?g")
+	verif.Assume(err == nil)
+	A := verif.Param("ANCHORS", 2)
+	n := 2 + verif.Choice("n", verif.Param("EXTRA", 0)+1)
+	var b1 []*spec
+	for i := 0; i < n; i++ {
+		b1 = append(b1, symTripleKinds("b1", 1, verif.Choice("pa", A), 0))
+	}
+	m := []int{5, 6, 0}[verif.Choice("method", 3)] // TriplesForSubject, TriplesForPredicate, Objects
+	q := symTripleKinds("q", 1, verif.Choice("qa", A), 0)
+	lo := &storage.LookupOptions{}
+	if verif.Choice("how", 2) == 0 {
+		lo.LatestAnchor = true
+	} else {
+		lo.FilterOptions = &filter.StorageOptions{Operation: filter.Latest, Field: filter.PredicateField}
+	}
+	g.AddTriples(ctx, triples(b1))
+	base, err0, _ := lookup(g, m, q, storage.DefaultLookup, b1)
+	got, err1, _ := lookup(g, m, q, lo, b1)
+	verif.Reach("looked-up")
+	verif.Assert(err0 == nil && err1 == nil, "C09/latest/lookup-succeeds")
+	for _, x := range base {
+		if fixes[m][1] && x.pa != q.pa {
+			// the filter compares predicate text with the query predicate (known, see HarnessC09Options)
+			verif.Class("filter-compares-predicate-text-not-instant")
+		}
+		want := true
+		for _, y := range base {
+			if anchorPool[y.pa].After(anchorPool[x.pa]) {
+				want = verif.And(want, y.pb != x.pb)
+			}
+		}
+		if containsPtr(got, x) {
+			verif.Assert(want, "C09/latest/kept-only-if-greatest-anchor")
+		} else {
+			verif.Assert(!want, "C09/latest/greatest-anchor-is-kept")
+		}
+		verif.Class("")
+	}
 }
